@@ -101,20 +101,27 @@ Theorem C18_override_cells_separated : forall s x kws, WF s -> live (fs s) x = t
 Proof. exact override_cells_separated. Qed.
 Print Assumptions C18_override_cells_separated.
 
-(* ---- independence under ANY later history.  After the copy, apply any finite sequence `ls` of
-   operations to objects of ONE side b (b = true: the originals, ids < n; b = false: the objects of the
-   copy, ids >= n):  LTree o = a C11 tree operation that creates no object (add, remove, parent
-   assignment, children/sources/sensors/collections assignment; every id it mentions on side b),
-   LWrite c v = an in-place write into a cell reachable from a live object of side b,
-   LKw i k = a rebinding setter / style update / label assignment on a live object i of side b
-   (lrun_ok checks these side conditions along the run).  Then for every object j of the OTHER side
-   nothing observable changes: its record (parent, children, sources, sensors, collections), its
-   flattened views, and everything it shows (attribute values, effective style, label). *)
+(* ---- independence under ANY later history.  After the copy (state u0 with N = n + n objects: the
+   originals are the ids < n, the objects of the copy the ids n..N-1), apply any finite sequence `ls` of
+   operations to ONE side b (b = true: the originals; b = false: the copy):
+     LTree o   a C11 tree operation (add, remove, parent assignment, children/sources/sensors/
+               collections assignment) that mentions objects of side b only,
+     LWrite c v  an in-place write into a cell reachable from a live object of side b,
+     LKw i k   a rebinding setter / style update / label assignment on a live object i of side b,
+     LNew ..   creation of a NEW object (Sensor(..), Cuboid(..), Collection(); Collection(a, b) and a + b
+               are LNew followed by LTree (Add ..)); it belongs to side b,
+     LCopy x kws  a further copy() (with overrides) of an object of side b; its objects belong to side b
+   (`sideb n N b` puts every id >= N, i.e. every object created later, on side b; lrun_ok checks the
+   side conditions along the run).  Then for every object j of the OTHER side nothing observable
+   changes: its record (parent, children, sources, sensors, collections), its flattened views, and
+   everything it shows (attribute values, effective style, label). *)
 Theorem C18_later_ops_frame : forall s x kws, WF s -> live (fs s) x = true ->
   let u0 := copy s x kws in let n := length (fs s) in
-  forall (b : bool) (ls : list lop), lrun_ok n b u0 ls ->
+  forall (b : bool) (ls : list lop),
+  let side := sideb n (n + n) b in
+  lrun_ok side b u0 ls ->
   let u := lrun u0 ls in
-  forall j, side n j <> b ->
+  forall j, side j <> b ->
     get (fs u) j = get (fs u0) j /\
     children_all (fs u) j = children_all (fs u0) j /\
     sources_all (fs u) j = sources_all (fs u0) j /\
@@ -124,17 +131,20 @@ Theorem C18_later_ops_frame : forall s x kws, WF s -> live (fs s) x = true ->
 Proof. exact later_ops_frame. Qed.
 Print Assumptions C18_later_ops_frame.
 
-(* the underlying footprint lemma of the C11 model: a tree operation that mentions only objects of one
-   side of a link-closed partition changes only objects of that side and keeps the partition closed *)
-Theorem C18_step_frame : forall (n : nat) (b : bool) (s : state) (o : op),
-  Closed n s -> op_on n b o -> FR n b s (fst (step repaired s o)).
-Proof. exact step_frame. Qed.
+(* the underlying footprint theorem of the C11 model, for an ARBITRARY partition `side` of the ids that
+   no parent/children link crosses: an operation (creating ones included: Collection(..), +, copy)
+   that mentions only objects of side b changes only objects of side b, keeps the kinds of the old
+   objects, puts the g objects it creates on side b, and keeps the partition closed *)
+Theorem C18_step_frame : forall (side : nat -> bool) (b : bool) (s : state) (o : op),
+  Inv s -> Closed side s -> (forall i, length s <= i -> side i = b) -> op_on_all side b o ->
+  exists g, FRg side b g s (fst (step repaired s o)).
+Proof. exact step_frame_all. Qed.
 Print Assumptions C18_step_frame.
 
 Example C18_later_ops_nonvacuous :
-  lrun_ok 2 false (copy ex_world 1 [])
-    [LTree (Remove 3 [2] true ERaise); LKw 2 (KwAttr 0 7); LTree (Add 3 [2] false);
-     LKw 3 (KwStyle 5)].
+  lrun_ok (sideb 2 4 false) false (copy ex_world 1 [])
+    [LTree (Remove 3 [2] true ERaise); LKw 2 (KwAttr 0 7); LNew KColl [1; 2] 0 0 None;
+     LTree (Add 4 [2] false); LCopy 4 []; LKw 3 (KwStyle 5)].
 Proof. exact later_ops_example. Qed.
 
 (* ---- the iterated label on actual (ASCII) strings: Model/LabelModel.v mirrors add_iteration_suffix
